@@ -1,13 +1,767 @@
-//! C05 — stub (not built yet; not registered in MANIFEST.json).
-use super::*;
+//! C05 — styles and dimensions survive save/reload; interning never merges styles.
+//!
+//! Case = a set of 1..300 distinct style specs built as families of near-duplicates
+//! (gen::style), assigned to cells, whole rows (+height/hidden) and whole columns
+//! (+width/hidden/best-fit, with runs of equal adjacent columns and a neighbour column that
+//! differs from the run in exactly one thing).  The workbook is built through the public API,
+//! saved to memory, reloaded, saved, reloaded, saved.
+//!
+//! Oracles (each tied to a sentence of the statement):
+//!  (i)  "After save and reload every cell, row and column shows the same effective
+//!       formatting it was given ... and rows/columns keep their height, width and hidden
+//!       state": for every target the effective projection (gen::style::effective, 29
+//!       attributes, normalisations N1..N5 documented there) of the reloaded style equals the
+//!       hand-written expectation of its spec; height/width are compared by f64 bits, hidden
+//!       by value.  Checked after the first reload and again after the second (a loaded
+//!       workbook is a workbook too).  bestFit is compared too (it is one of the column
+//!       attributes the writer uses to decide merging; losing it is reported under its own key).
+//!  (ii) "Two cells that were given different formatting never come back with the same one":
+//!       implied by (i) when (i) holds; when (i) fails the classifier looks for the style of
+//!       the same workbook whose component the target came back with and reports the pair
+//!       (key `<attrs that tell the two apart>/merged`).
+//!  (iii)"saving repeatedly does not grow the style tables": child counts of cellXfs, fonts,
+//!       fills, borders, numFmts, dxfs in xl/styles.xml (own zip + quick-xml pass over the
+//!       produced bytes) must not increase from generation 1 to 2 to 3, and cellXfs of
+//!       generation 1 <= distinct styles used + the count an empty workbook has.
+use super::Prop;
+use crate::engine::*;
+use crate::gen::style::*;
+use crate::gen::wb::Num;
+use crate::props::c01::{load, save};
+use proptest::prelude::*;
+use serde::{Deserialize, Serialize};
+use std::collections::BTreeMap;
+use std::io::{Cursor, Read};
+use umya_spreadsheet::{Spreadsheet, Style};
 
 pub fn prop() -> Prop {
     Prop {
         id: "C05",
-        describe: |_| {},
-        subs: no_subs,
-        extra: no_extra,
-        replay_extra: no_replay_extra,
-        watchdog_s: (900, 7200),
+        describe,
+        subs,
+        extra: super::no_extra,
+        replay_extra: super::no_replay_extra,
+        watchdog_s: (900, 14400),
     }
+}
+
+fn describe(ctx: &Ctx) {
+    ctx.rule("workbooks with 1..300 distinct styles (quick <=48, thorough <=300) drawn from the full product font(name,size,bold,italic,underline kind,strike,colour argb/theme+tint/indexed) x fill(pattern,fg,bg | linear gradient: angle, stops) x 5 border edges(style,colour)+diagonal flags x alignment(h,v,wrap,rotation) x number format(built-in id / custom code incl. XML specials) x protection(locked,hidden), built as families: a base, its single-attribute neighbours and adversarial neighbours for concatenated keys (name-digits x size, size x family, indexed x theme, border style x colour, fg<->bg, flag shifts, tint precision); every style sits on at least one cell, further cells/rows(+height,hidden)/columns(+width,hidden,bestFit, runs of equal adjacent columns and a one-attribute neighbour column) on 1..2 sheets; standard and light writer; save, reload, save, reload, save. Non-trivial = the workbook holds >=2 styles whose effective projections differ in exactly one attribute; distinct by full case");
+    ctx.assume("effective formatting = the 29 attributes the statement names, read through public getters; an absent component stands for the workbook default of that component (Style::get_default_value()), an absent attribute for its format default, palette-indexed colours for their ARGB, number formats are compared by code (normalisations N1-N5 in gen/style.rs)");
+    ctx.assume("not generated: path gradients (the API has no fields for them), the vertical/horizontal inside edges (differential formats only), protection with only one of locked/hidden set (the getter cannot tell absent from false), font names / format codes with control characters, column auto-width");
+    ctx.assume("'does not grow' is asserted as: no table has more children in generation n+1 than in generation n (n=1,2); shrinking is allowed");
+}
+
+// ---------------------------------------------------------------------------------------
+// case
+
+#[derive(Debug, Clone, Serialize, Deserialize)]
+pub struct CellT {
+    pub sheet: u8,
+    pub col: u32,
+    pub row: u32,
+    /// raw index, mapped monotonically onto the style list
+    pub style: u16,
+    pub value: bool,
+}
+
+#[derive(Debug, Clone, Serialize, Deserialize)]
+pub struct RowT {
+    pub sheet: u8,
+    pub row: u32,
+    pub style: Option<u16>,
+    pub height: Option<Num>,
+    pub hidden: Option<bool>,
+}
+
+#[derive(Debug, Clone, Serialize, Deserialize)]
+pub struct ColT {
+    pub sheet: u8,
+    pub col: u32,
+    /// number of adjacent columns with identical settings
+    pub run: u8,
+    pub style: Option<u16>,
+    pub width: Option<Num>,
+    pub hidden: Option<bool>,
+    pub best_fit: Option<bool>,
+    /// 0 = none; otherwise the column right of the run gets the same settings except
+    /// 1 width, 2 hidden, 3 bestFit, 4 style
+    pub neighbour: u8,
+    pub neighbour_style: u16,
+}
+
+#[derive(Debug, Clone, Serialize, Deserialize)]
+pub struct Case {
+    pub styles: Vec<StyleSpec>,
+    pub sheets: u8,
+    pub cells: Vec<CellT>,
+    pub rows: Vec<RowT>,
+    pub cols: Vec<ColT>,
+    pub light: bool,
+    /// styles with an odd index (and the targets that carry them) are applied only AFTER the
+    /// first save+reload, i.e. they are interned against a stylesheet that came from a file
+    #[serde(default)]
+    pub two_phase: bool,
+}
+
+#[derive(Debug, Clone, Default, PartialEq)]
+struct ColSet {
+    style: Option<usize>,
+    width: Option<f64>,
+    hidden: Option<bool>,
+    best_fit: Option<bool>,
+}
+
+#[derive(Debug, Clone, Default, PartialEq)]
+struct RowSet {
+    style: Option<usize>,
+    height: Option<f64>,
+    hidden: Option<bool>,
+}
+
+static HEIGHTS: [f64; 10] = [15.0, 0.0, 0.75, 12.75, 15.75, 409.5, 13.2, 0.3333333333333333, 20.25, 100.0];
+static WIDTHS: [f64; 10] = [8.38, 0.0, 1.0, 8.43, 9.140625, 10.7109375, 255.0, 20.5, 0.3333333333333333, 8.380000000000001];
+
+impl Case {
+    fn nsheets(&self) -> usize {
+        self.sheets.clamp(1, 2) as usize
+    }
+    fn sidx(&self, raw: u16) -> usize {
+        pick_idx(raw, self.styles.len())
+    }
+    fn sheet_of(&self, s: u8) -> usize {
+        s as usize % self.nsheets()
+    }
+    /// 1 = applied before the first save, 2 = applied to the reloaded workbook
+    fn phase(&self, style: Option<usize>) -> u8 {
+        match style {
+            Some(i) if self.two_phase && i % 2 == 1 => 2,
+            _ => 1,
+        }
+    }
+    /// resolved column settings (later entries override earlier ones per attribute)
+    fn col_model(&self) -> BTreeMap<(usize, u32), ColSet> {
+        let mut m: BTreeMap<(usize, u32), ColSet> = BTreeMap::new();
+        fn put(m: &mut BTreeMap<(usize, u32), ColSet>, sheet: usize, col: u32, style: Option<usize>, width: Option<f64>, hidden: Option<bool>, best_fit: Option<bool>) {
+            let e = m.entry((sheet, col)).or_default();
+            if style.is_some() {
+                e.style = style;
+            }
+            if width.is_some() {
+                e.width = width;
+            }
+            if hidden.is_some() {
+                e.hidden = hidden;
+            }
+            if best_fit.is_some() {
+                e.best_fit = best_fit;
+            }
+        }
+        for c in &self.cols {
+            let sheet = self.sheet_of(c.sheet);
+            let run = c.run.clamp(1, 8) as u32;
+            let start = c.col.clamp(1, 16384 - 9);
+            let style = c.style.map(|r| self.sidx(r));
+            let width = c.width.map(|w| w.0);
+            for k in 0..run {
+                put(&mut m, sheet, start + k, style, width, c.hidden, c.best_fit);
+            }
+            if c.neighbour != 0 {
+                let (mut s2, mut w2, mut h2, mut b2) = (style, width, c.hidden, c.best_fit);
+                match c.neighbour % 5 {
+                    1 => w2 = Some(if width == Some(12.5) { 12.25 } else { 12.5 }),
+                    2 => h2 = Some(!c.hidden.unwrap_or(false)),
+                    3 => b2 = Some(!c.best_fit.unwrap_or(false)),
+                    _ => {
+                        let other = self.sidx(c.neighbour_style);
+                        s2 = if Some(other) == style { None } else { Some(other) };
+                    }
+                }
+                // the neighbour must carry all four attributes of its own (no inheritance from
+                // an earlier entry at that position), so that it really differs in one thing
+                let e = ColSet { style: s2, width: w2, hidden: h2, best_fit: b2 };
+                m.insert((sheet, start + run), e);
+            }
+        }
+        m
+    }
+    fn row_model(&self) -> BTreeMap<(usize, u32), RowSet> {
+        let mut m: BTreeMap<(usize, u32), RowSet> = BTreeMap::new();
+        for r in &self.rows {
+            let e = m.entry((self.sheet_of(r.sheet), r.row.clamp(1, 1048576))).or_default();
+            if let Some(s) = r.style {
+                e.style = Some(self.sidx(s));
+            }
+            if let Some(h) = &r.height {
+                e.height = Some(h.0);
+            }
+            if r.hidden.is_some() {
+                e.hidden = r.hidden;
+            }
+        }
+        m
+    }
+    /// (sheet,row,col) -> (style index, has value); every style also sits on one cell of
+    /// its own on sheet 0 (rows 40.., columns 2..17), applied last
+    fn cell_model(&self) -> BTreeMap<(usize, u32, u32), (usize, bool)> {
+        let mut m = BTreeMap::new();
+        for c in &self.cells {
+            m.insert((self.sheet_of(c.sheet), c.row.clamp(1, 1048576), c.col.clamp(1, 16384)), (self.sidx(c.style), c.value));
+        }
+        for i in 0..self.styles.len() {
+            m.insert((0usize, 40 + (i / 16) as u32, 2 + (i % 16) as u32), (i, i % 3 == 0));
+        }
+        m
+    }
+}
+
+fn new_book(case: &Case) -> Spreadsheet {
+    let mut book = umya_spreadsheet::new_file_empty_worksheet();
+    for s in 0..case.nsheets() {
+        book.new_sheet(format!("S{}", s + 1)).expect("distinct legal names");
+    }
+    book
+}
+
+/// apply the targets of one phase through the public API
+fn build(book: &mut Spreadsheet, case: &Case, styles: &[Style], phase: u8) {
+    for ((sheet, col), cs) in case.col_model() {
+        if case.phase(cs.style) != phase {
+            continue;
+        }
+        let ws = book.get_sheet_mut(&sheet).unwrap();
+        let c = ws.get_column_dimension_by_number_mut(&col);
+        if let Some(i) = cs.style {
+            c.set_style(styles[i].clone());
+        }
+        if let Some(w) = cs.width {
+            c.set_width(w);
+        }
+        if let Some(h) = cs.hidden {
+            c.set_hidden(h);
+        }
+        if let Some(b) = cs.best_fit {
+            c.set_best_fit(b);
+        }
+    }
+    for ((sheet, row), rs) in case.row_model() {
+        if case.phase(rs.style) != phase {
+            continue;
+        }
+        let ws = book.get_sheet_mut(&sheet).unwrap();
+        let r = ws.get_row_dimension_mut(&row);
+        if let Some(i) = rs.style {
+            r.set_style(styles[i].clone());
+        }
+        if let Some(h) = rs.height {
+            r.set_height(h);
+        }
+        if let Some(h) = rs.hidden {
+            r.set_hidden(h);
+        }
+    }
+    for ((sheet, row, col), (i, value)) in case.cell_model() {
+        if case.phase(Some(i)) != phase {
+            continue;
+        }
+        let ws = book.get_sheet_mut(&sheet).unwrap();
+        let c = ws.get_cell_mut((col, row));
+        if value {
+            c.set_value_number(1.5);
+        }
+        // always explicit: a cell created in a styled row/column inherits that style, which
+        // is API behaviour outside this property
+        c.set_style(styles[i].clone());
+    }
+}
+
+// ---------------------------------------------------------------------------------------
+// classification
+
+fn text_kind(s: &str) -> &'static str {
+    if s.chars().any(|c| matches!(c, '<' | '>' | '&' | '"' | '\'')) {
+        "xml-special"
+    } else if s.starts_with(' ') || s.ends_with(' ') {
+        "edge-blank"
+    } else if !s.is_ascii() {
+        "non-ascii"
+    } else if s.chars().last().map_or(false, |c| c.is_ascii_digit()) {
+        "ends-in-digit"
+    } else {
+        "plain"
+    }
+}
+
+/// coarse class of an attribute value for finding keys (enumerations keep their value)
+fn value_class(attr: &str, v: &str) -> String {
+    if attr.ends_with("color") || attr == "fill.fg" || attr == "fill.bg" {
+        let kind = v.split(':').next().unwrap_or(v);
+        if v.contains(" tint:") {
+            format!("{}+tint", kind.split(' ').next().unwrap_or(kind))
+        } else {
+            kind.to_string()
+        }
+    } else if attr == "font.name" || attr == "numfmt.code" {
+        text_kind(v).to_string()
+    } else if attr == "font.size" {
+        let t = v.split('#').next().unwrap_or(v);
+        if t.ends_with(".0") { "int" } else { "frac" }.to_string()
+    } else {
+        v.to_string()
+    }
+}
+
+/// Compare one target's observed projection with its expectation; on a mismatch build the
+/// finding key (merge with a sibling style, whole style lost, or one attribute changed).
+fn judge_style(what: &str, target: &str, i: usize, exp: &[StyleProj], got: &StyleProj, gen: &str) -> Option<Verdict> {
+    let e = &exp[i];
+    if e == got {
+        return None;
+    }
+    let d = e.diff(got);
+    let (attr, ev, gv) = &d[0];
+    let comp = component_of(attr);
+    let dflt = default_proj();
+    if *got == dflt {
+        return Some(Verdict::fail(
+            format!("{}{}/style-lost", gen, what),
+            format!("{} {} was given style #{} ({:?}) and came back with the default formatting", what, target, i, e.diff(got)),
+        ));
+    }
+    let gcomp = got.component(comp);
+    if gcomp == dflt.component(comp) && d.iter().filter(|x| component_of(x.0) == comp).count() > 1 {
+        return Some(Verdict::fail(
+            format!("{}{}/reset-to-default", gen, comp),
+            format!("{} {} style #{}: the whole {} came back as the workbook default; expected {:?} (all differences: {:?})", what, target, i, comp, e.component(comp), d),
+        ));
+    }
+    // (ii) did it come back with the component of another style of this workbook?
+    for (j, o) in exp.iter().enumerate() {
+        if j != i && o.component(comp) == gcomp {
+            let apart: Vec<&str> = e.diff(o).into_iter().map(|x| x.0).filter(|a| component_of(a) == comp).collect();
+            return Some(Verdict::fail(
+                format!("{}{}/merged", gen, apart.join("+")),
+                format!(
+                    "{} {} was given style #{} but came back with the {} of style #{}: they differ in {:?}; expected {:?}, reloaded {:?}",
+                    what,
+                    target,
+                    i,
+                    comp,
+                    j,
+                    e.diff(o),
+                    e.component(comp),
+                    gcomp
+                ),
+            ));
+        }
+    }
+    Some(Verdict::fail(
+        format!("{}{}/{}->{}", gen, attr, value_class(attr, ev), value_class(attr, gv)),
+        format!("{} {} style #{}: {} expected {:?}, reloaded {:?} (all differences: {:?})", what, target, i, attr, ev, gv, d),
+    ))
+}
+
+fn default_width() -> f64 {
+    *umya_spreadsheet::Column::default().get_width()
+}
+
+/// compare every target applied up to and including `upto` (phase) with its expectation
+fn compare(case: &Case, exp: &[StyleProj], book: &Spreadsheet, gen: &str, upto: u8) -> Option<Verdict> {
+    if book.get_sheet_count() != case.nsheets() {
+        return Some(Verdict::fail(format!("{}sheets/count", gen), format!("{} sheets reloaded, {} saved", book.get_sheet_count(), case.nsheets())));
+    }
+    let dflt = default_proj();
+    for ((sheet, row, col), (i, _)) in case.cell_model() {
+        if case.phase(Some(i)) > upto {
+            continue;
+        }
+        let ws = book.get_sheet(&sheet).unwrap();
+        let got = effective(ws.get_style((col, row)));
+        let at = format!("sheet {} {}{}", sheet, crate::props::c17::ref_col_name(col), row);
+        if let Some(v) = judge_style("cell", &at, i, exp, &got, gen) {
+            return Some(v);
+        }
+    }
+    for ((sheet, row), rs) in case.row_model() {
+        if case.phase(rs.style) > upto {
+            continue;
+        }
+        let ws = book.get_sheet(&sheet).unwrap();
+        let at = format!("sheet {} row {}", sheet, row);
+        let r = ws.get_row_dimension(&row);
+        let (h, hid, st) = match r {
+            Some(r) => (*r.get_height(), *r.get_hidden(), effective(r.get_style())),
+            None => (0.0, false, dflt.clone()),
+        };
+        let eh = rs.height.unwrap_or(0.0);
+        if h.to_bits() != eh.to_bits() {
+            let cls = if eh == 0.0 { "zero" } else if eh.fract() == 0.0 { "int" } else { "frac" };
+            return Some(Verdict::fail(format!("{}row/height-{}/changed", gen, cls), format!("{}: height {:?} reloaded as {:?} (row present: {})", at, eh, h, r.is_some())));
+        }
+        if hid != rs.hidden.unwrap_or(false) {
+            return Some(Verdict::fail(format!("{}row/hidden/changed", gen), format!("{}: hidden {:?} reloaded as {}", at, rs.hidden, hid)));
+        }
+        match rs.style {
+            Some(i) => {
+                if let Some(v) = judge_style("row", &at, i, exp, &st, gen) {
+                    return Some(v);
+                }
+            }
+            None => {
+                if st != dflt {
+                    return Some(Verdict::fail(format!("{}row/style-appeared", gen), format!("{}: no style given, reloaded with {:?}", at, dflt.diff(&st))));
+                }
+            }
+        }
+    }
+    for ((sheet, col), cs) in case.col_model() {
+        if case.phase(cs.style) > upto {
+            continue;
+        }
+        let ws = book.get_sheet(&sheet).unwrap();
+        let at = format!("sheet {} column {}", sheet, crate::props::c17::ref_col_name(col));
+        let c = ws.get_column_dimension_by_number(&col);
+        let (w, hid, bf, st) = match c {
+            Some(c) => (*c.get_width(), *c.get_hidden(), *c.get_best_fit(), effective(c.get_style())),
+            None => (default_width(), false, false, dflt.clone()),
+        };
+        let ew = cs.width.unwrap_or_else(default_width);
+        if w.to_bits() != ew.to_bits() {
+            return Some(Verdict::fail(format!("{}col/width/changed", gen), format!("{}: width {:?} reloaded as {:?} (column present: {})", at, ew, w, c.is_some())));
+        }
+        if hid != cs.hidden.unwrap_or(false) {
+            return Some(Verdict::fail(format!("{}col/hidden/changed", gen), format!("{}: hidden {:?} reloaded as {}", at, cs.hidden, hid)));
+        }
+        if bf != cs.best_fit.unwrap_or(false) {
+            return Some(Verdict::fail(format!("{}col/bestFit/changed", gen), format!("{}: bestFit {:?} reloaded as {}", at, cs.best_fit, bf)));
+        }
+        match cs.style {
+            Some(i) => {
+                if let Some(v) = judge_style("col", &at, i, exp, &st, gen) {
+                    return Some(v);
+                }
+            }
+            None => {
+                if st != dflt {
+                    return Some(Verdict::fail(format!("{}col/style-appeared", gen), format!("{}: no style given, reloaded with {:?}", at, dflt.diff(&st))));
+                }
+            }
+        }
+    }
+    None
+}
+
+// ---------------------------------------------------------------------------------------
+// xl/styles.xml table sizes, independent of the library's reader
+
+pub const TABLES: [&str; 6] = ["cellXfs", "fonts", "fills", "borders", "numFmts", "dxfs"];
+
+/// number of child elements of every direct child of <styleSheet>
+pub fn table_counts(bytes: &[u8]) -> Result<BTreeMap<String, u32>, String> {
+    let mut zip = zip::ZipArchive::new(Cursor::new(bytes)).map_err(|e| format!("zip: {}", e))?;
+    let mut xml = String::new();
+    zip.by_name("xl/styles.xml")
+        .map_err(|e| format!("xl/styles.xml: {}", e))?
+        .read_to_string(&mut xml)
+        .map_err(|e| format!("xl/styles.xml: {}", e))?;
+    let mut reader = quick_xml::Reader::from_str(&xml);
+    let mut counts: BTreeMap<String, u32> = BTreeMap::new();
+    let mut depth = 0usize;
+    let mut current: Option<String> = None;
+    loop {
+        match reader.read_event() {
+            Ok(quick_xml::events::Event::Start(e)) => {
+                let name = String::from_utf8_lossy(e.name().as_ref()).to_string();
+                if depth == 1 {
+                    counts.entry(name.clone()).or_insert(0);
+                    current = Some(name);
+                } else if depth == 2 {
+                    if let Some(c) = &current {
+                        *counts.get_mut(c).unwrap() += 1;
+                    }
+                }
+                depth += 1;
+            }
+            Ok(quick_xml::events::Event::Empty(e)) => {
+                let name = String::from_utf8_lossy(e.name().as_ref()).to_string();
+                if depth == 1 {
+                    counts.entry(name).or_insert(0);
+                } else if depth == 2 {
+                    if let Some(c) = &current {
+                        *counts.get_mut(c).unwrap() += 1;
+                    }
+                }
+            }
+            Ok(quick_xml::events::Event::End(_)) => {
+                depth = depth.saturating_sub(1);
+                if depth == 1 {
+                    current = None;
+                }
+            }
+            Ok(quick_xml::events::Event::Eof) => break,
+            Err(e) => return Err(format!("xl/styles.xml not well-formed: {}", e)),
+            _ => {}
+        }
+    }
+    Ok(counts)
+}
+
+fn count_of(c: &BTreeMap<String, u32>, t: &str) -> u32 {
+    c.get(t).copied().unwrap_or(0)
+}
+
+/// cellXfs of a workbook without any styling (what new_file itself contributes)
+fn base_xfs() -> u32 {
+    static BASE: std::sync::OnceLock<u32> = std::sync::OnceLock::new();
+    *BASE.get_or_init(|| {
+        let mut book = umya_spreadsheet::new_file_empty_worksheet();
+        book.new_sheet("S1").unwrap();
+        let bytes = save(&book, false).expect("empty workbook saves");
+        count_of(&table_counts(&bytes).expect("styles.xml of an empty workbook parses"), "cellXfs")
+    })
+}
+
+// ---------------------------------------------------------------------------------------
+// the check
+
+macro_rules! lib {
+    ($stage:expr, $e:expr) => {
+        match guard(|| $e) {
+            Ok(Ok(v)) => v,
+            Ok(Err(e)) => return Verdict::fail(format!("{}/error", $stage), e),
+            Err(p) => return Verdict::fail(format!("{}/panic:{}", $stage, p.site()), p.short()),
+        }
+    };
+}
+
+fn check(case: &Case, obs: &mut Obs) -> Verdict {
+    if case.styles.is_empty() {
+        return Verdict::Discard("no styles".into());
+    }
+    let exp: Vec<StyleProj> = case.styles.iter().map(expected).collect();
+    // NT rule + labels
+    let n = exp.len();
+    let mut near = false;
+    'outer: for i in 0..n {
+        for j in (i + 1)..n {
+            if exp[i].distance(&exp[j]) == 1 {
+                near = true;
+                break 'outer;
+            }
+        }
+    }
+    obs.nontrivial(near);
+    obs.class(format!(
+        "styles:{}",
+        match n {
+            1 => "1",
+            2..=9 => "2-9",
+            10..=29 => "10-29",
+            30..=99 => "30-99",
+            _ => "100+",
+        }
+    ));
+    obs.class(if case.light { "writer:light" } else { "writer:standard" });
+    obs.class(if case.two_phase { "two-phase" } else { "one-phase" });
+    obs.class(format!("sheets:{}", case.nsheets()));
+    let cm = case.col_model();
+    let rm = case.row_model();
+    obs.class(format!("cols:{}", if cm.is_empty() { "0" } else if cm.len() < 8 { "1-7" } else { "8+" }));
+    obs.class(format!("rows:{}", if rm.is_empty() { "0" } else if rm.len() < 8 { "1-7" } else { "8+" }));
+    if case.cols.iter().any(|c| c.run > 1) {
+        obs.class("col-run");
+    }
+    if case.cols.iter().any(|c| c.neighbour != 0) {
+        obs.class("col-neighbour");
+    }
+    if case.styles.iter().any(|s| s.fill.as_ref().map_or(false, |f| f.fg.is_some() && f.pattern.unwrap_or(0) == 0)) {
+        obs.class("fill:none+fg");
+    }
+    if case.styles.iter().any(|s| s.fill.as_ref().map_or(false, |f| f.gradient.is_some())) {
+        obs.class("fill:gradient");
+    }
+    let near_pairs = (0..n).map(|i| ((i + 1)..n).filter(|&j| exp[i].distance(&exp[j]) == 1).count()).sum::<usize>();
+    obs.class(format!("near-pairs:{}", match near_pairs { 0 => "0", 1..=9 => "1-9", 10..=99 => "10-99", _ => "100+" }));
+
+    // spec -> Style through the public API; the hand-written expectation must agree with
+    // what the getters say BEFORE saving, otherwise the case says nothing about save/reload
+    let styles: Vec<Style> = match guard(|| case.styles.iter().map(apply).collect::<Vec<_>>()) {
+        Ok(s) => s,
+        Err(p) => return Verdict::Discard(format!("apply panicked: {}", p.short())),
+    };
+    for (i, st) in styles.iter().enumerate() {
+        let pre = effective(st);
+        if pre != exp[i] {
+            return Verdict::Discard(format!("pre-save model mismatch for style #{}: {:?}", i, exp[i].diff(&pre)));
+        }
+    }
+    let mut book = new_book(case);
+    if let Err(p) = guard(|| build(&mut book, case, &styles, 1)) {
+        return Verdict::fail(format!("build/panic:{}", p.site()), p.short());
+    }
+    if let Some(Verdict::Fail { key, detail }) = compare(case, &exp, &book, "", 1) {
+        return Verdict::Discard(format!("pre-save workbook does not show the spec: {} {}", key, detail));
+    }
+
+    let bytes1 = lib!("save", save(&book, case.light));
+    let mut book2 = lib!("reload", load(&bytes1));
+    if let Some(v) = compare(case, &exp, &book2, "", 1) {
+        return v;
+    }
+    // two-phase: the remaining styles are added to the workbook that came from the file
+    let gen2 = if case.two_phase { "phase2:" } else { "resave:" };
+    if case.two_phase {
+        if let Err(p) = guard(|| build(&mut book2, case, &styles, 2)) {
+            return Verdict::fail(format!("phase2:build/panic:{}", p.site()), p.short());
+        }
+        if let Some(Verdict::Fail { key, detail }) = compare(case, &exp, &book2, "", 2) {
+            return Verdict::Discard(format!("pre-save workbook (phase 2) does not show the spec: {} {}", key, detail));
+        }
+    }
+    let bytes2 = lib!("resave", save(&book2, case.light));
+    let book3 = lib!("reload2", load(&bytes2));
+    if let Some(v) = compare(case, &exp, &book3, gen2, 2) {
+        return v;
+    }
+    let bytes3 = lib!("resave2", save(&book3, case.light));
+
+    // (iii) tables
+    let t1 = match table_counts(&bytes1) {
+        Ok(t) => t,
+        Err(e) => return Verdict::fail("tables/unreadable", e),
+    };
+    let t2 = match table_counts(&bytes2) {
+        Ok(t) => t,
+        Err(e) => return Verdict::fail("tables/unreadable", e),
+    };
+    let t3 = match table_counts(&bytes3) {
+        Ok(t) => t,
+        Err(e) => return Verdict::fail("tables/unreadable", e),
+    };
+    for t in TABLES {
+        let (a, b, c) = (count_of(&t1, t), count_of(&t2, t), count_of(&t3, t));
+        // (in two-phase mode generation 2 legitimately has more styles than generation 1)
+        if b > a && !case.two_phase {
+            return Verdict::fail(format!("tables/{}-grows:gen1->gen2", t), format!("{}: {} entries after the first save, {} after load+save (third: {})", t, a, b, c));
+        }
+        if c > b {
+            return Verdict::fail(format!("tables/{}-grows:gen2->gen3", t), format!("{}: {} -> {} -> {} entries over three saves", t, a, b, c));
+        }
+    }
+    // Distinct styles are counted the way the library can possibly tell them apart: as `Style`
+    // values (PartialEq), separately per phase: a style added to a RELOADED workbook is a
+    // different value from its materialised twin that came from the file (font None vs
+    // Some(default font) ...), so it legitimately gets an xf of its own; the statement only
+    // forbids growth by saving.
+    let mut distinct = 0u32;
+    for phase in [1u8, 2] {
+        let mut seen: Vec<&Style> = Vec::new();
+        for (i, s) in styles.iter().enumerate() {
+            if case.phase(Some(i)) == phase && !seen.iter().any(|d| *d == s) {
+                seen.push(s);
+            }
+        }
+        distinct += seen.len() as u32;
+    }
+    // every style is applied in exactly one phase, so the bound is checked on the first
+    // generation that holds all of them
+    let xfs = count_of(if case.two_phase { &t2 } else { &t1 }, "cellXfs");
+    if xfs > distinct + base_xfs() {
+        return Verdict::fail(
+            "tables/cellXfs-exceeds-distinct-styles",
+            format!("{} cellXfs for {} distinct styles (+{} of an empty workbook)", xfs, distinct, base_xfs()),
+        );
+    }
+    Verdict::Pass
+}
+
+// ---------------------------------------------------------------------------------------
+// strategy
+
+fn col_pos() -> BoxedStrategy<u32> {
+    prop_oneof![
+        5 => 1u32..=12,
+        2 => prop::sample::select(vec![1u32, 2, 26, 27, 52, 702, 703, 16370, 16375]),
+        1 => 1u32..=16375,
+    ]
+    .boxed()
+}
+
+fn row_pos() -> BoxedStrategy<u32> {
+    prop_oneof![
+        5 => 1u32..=12,
+        2 => prop::sample::select(vec![1u32, 2, 39, 40, 41, 99, 100, 65536, 1048575, 1048576]),
+        1 => 1u32..=1048576,
+    ]
+    .boxed()
+}
+
+fn f64_from(table: &'static [f64]) -> BoxedStrategy<Num> {
+    prop_oneof![
+        4 => prop::sample::select(table.to_vec()),
+        1 => (0u32..=1638).prop_map(|i| i as f64 / 4.0),
+        1 => (1u32..=25500).prop_map(|i| i as f64 / 100.0),
+    ]
+    .prop_map(Num)
+    .boxed()
+}
+
+fn opt_b() -> BoxedStrategy<Option<bool>> {
+    prop_oneof![3 => Just(None), 2 => Just(Some(true)), 1 => Just(Some(false))].boxed()
+}
+
+fn strategy(t: Tier) -> BoxedStrategy<Case> {
+    // quick: ~8 families x (1 + <=5 neighbours + adversarial group) -> typically 30-48 styles
+    let (fams, muts, max_styles, targets) = t.pick((8usize, 5usize, 48usize, 12usize), (40, 8, 300, 40));
+    let styles = prop_oneof![
+        6 => style_set(fams, muts, max_styles, false),
+        1 => style_set(2, 3, 8, false),
+        1 => style_set(fams, muts, max_styles, true),
+    ];
+    let cell = (any::<u8>(), col_pos(), row_pos(), any::<u16>(), any::<bool>()).prop_map(|(sheet, col, row, style, value)| CellT { sheet, col, row, style, value });
+    let row = (any::<u8>(), row_pos(), prop::option::weighted(0.8, any::<u16>()), prop::option::weighted(0.6, f64_from(&HEIGHTS)), opt_b())
+        .prop_map(|(sheet, row, style, height, hidden)| RowT { sheet, row, style, height, hidden });
+    let col = (
+        any::<u8>(),
+        col_pos(),
+        prop_oneof![2 => Just(1u8), 3 => 2u8..=6],
+        prop::option::weighted(0.8, any::<u16>()),
+        prop::option::weighted(0.7, f64_from(&WIDTHS)),
+        opt_b(),
+        opt_b(),
+        prop_oneof![2 => Just(0u8), 4 => 1u8..=4],
+        any::<u16>(),
+    )
+        .prop_map(|(sheet, col, run, style, width, hidden, best_fit, neighbour, neighbour_style)| ColT {
+            sheet,
+            col,
+            run,
+            style,
+            width,
+            hidden,
+            best_fit,
+            neighbour,
+            neighbour_style,
+        });
+    (
+        styles,
+        1u8..=2,
+        prop::collection::vec(cell, 0..=targets),
+        prop::collection::vec(row, 0..=targets),
+        prop::collection::vec(col, 0..=targets),
+        any::<bool>(),
+        prop::bool::weighted(0.3),
+    )
+        .prop_map(|(styles, sheets, cells, rows, cols, light, two_phase)| Case { styles, sheets, cells, rows, cols, light, two_phase })
+        .boxed()
+}
+
+fn subs() -> Vec<Box<dyn DynSub>> {
+    vec![Box::new(Sub {
+        name: "roundtrip",
+        strategy,
+        cases: (400, 1500),
+        check,
+        max_shrink_iters: 3000,
+    })]
 }
